@@ -491,6 +491,8 @@ class FakeLock(_Prim):
       except RuntimeError:
         pass
       return
+    if self._owner is None and not s.aborting:
+      raise RuntimeError('release unlocked lock')      # like the real Lock
     self._owner = None
     if self._focus and not s.aborting:
       s.switch(me, 'lock.release@%s' % self._site)
@@ -542,6 +544,9 @@ class FakeRLock(_Prim):
 
   def release(self):
     s, me = current()
+    if s is not None and me is not None and not s.aborting and self._owner is not me:
+      # like the real RLock: only the owning thread may release it
+      raise RuntimeError('cannot release un-acquired lock')
     self._count -= 1
     if self._count <= 0:
       self._count = 0
